@@ -551,6 +551,36 @@ def mini_universe(chk: Check, pa, maxvar, maxcount):
                 rows.append(r)
     if universe is None or len(rows) < 1000:
         raise MachineryError("LLUDPFrame_MC printed %d rows" % len(rows))
+    # vacuity: the antecedents of the laws / the cases of the property are inhabited
+    cls = {}
+
+    def bump(k):
+        cls[k] = cls.get(k, 0) + 1
+    for r in rows:
+        m = r["m"]
+        bump("part:" + r["part"])
+        bump("zero-coded" if m["flags"] & 0x80 else "plain")
+        bump("acks:%d" % len(m["acks"]) if m["flags"] & 0x10 else "no-ack-flag")
+        bump("extra:%d" % len(m["extra"]))
+        for sb, insts in zip(next(t for t in universe if t["name"] == r["t"])["blocks"], m["blocks"]):
+            if sb["kind"] == "Variable":
+                bump("variable-block-count:%d" % len(insts))
+            for inst in insts:
+                for v, tv in zip(sb["vars"], inst):
+                    if tv["k"] == "unset":
+                        bump("unset:" + v["t"])
+                    elif tv["k"] == "str":
+                        bump("text-value")
+                    elif tv["k"] == "int" and tv["neg"]:
+                        bump("negative-int")
+                    elif tv["k"] == "raw" and v["t"] == "Variable":
+                        bump("variable-payload-len:%d" % len(tv["b"]))
+    chk.cov["mini_rows_by_class"] = dict(sorted(cls.items()))
+    for need in ("part:hdr", "part:body", "part:fill", "zero-coded", "plain", "acks:0", "acks:2", "extra:0", "extra:2",
+                 "variable-block-count:0", "variable-block-count:%d" % maxcount, "unset:Fixed", "unset:Variable", "unset:U8",
+                 "text-value", "negative-int", "variable-payload-len:0", "variable-payload-len:%d" % maxvar):
+        if need not in cls:
+            raise MachineryError("vacuous model: no table row of class %s" % need)
     text = render_template_text(universe)
     st, r = impl_call(I.codec, text, False)
     if st != "ok":
